@@ -102,20 +102,20 @@ Definition root_keeps (s s' : sys) : Prop :=
   r_unavB s' = r_unavB s /\ r_unavS s' = r_unavS s /\ r_svc s' = r_svc s.
 
 Inductive root_step (watch : bool) (s s' : sys) : Prop :=
-| RS_drop o rest :                      (* a message the root ignores (watch mode: every message) *)
-    ph s = PRun -> rootq s = o :: rest -> rootq s' = rest ->
+| RS_drop pre o rest :                      (* a message the root ignores (watch mode: every message) *)
+    ph s = PRun -> rootq s = pre ++ o :: rest -> rootq s' = pre ++ rest ->
     (watch = true \/ match o with OErr _ => False | OMsg ARoot (MOk _ _ _) => False | _ => True end) ->
     ph s' = ph s -> root_keeps s s' -> termq s' = termq s -> sigq s' = sigq s -> root_step watch s s'
-| RS_err t rest :
-    watch = false -> ph s = PRun -> rootq s = OErr t :: rest -> rootq s' = rest ->
+| RS_err pre t rest :
+    watch = false -> ph s = PRun -> rootq s = pre ++ OErr t :: rest -> rootq s' = pre ++ rest ->
     ph s' = PTerminating (SErr t) -> root_keeps s s' -> termq s' = dom (actors s) -> sigq s' = sigq s ->
     root_step watch s s'
-| RS_okB t act rest :
-    watch = false -> ph s = PRun -> rootq s = OMsg ARoot (MOk KB t act) :: rest -> rootq s' = rest ->
+| RS_okB pre t act rest :
+    watch = false -> ph s = PRun -> rootq s = pre ++ OMsg ARoot (MOk KB t act) :: rest -> rootq s' = pre ++ rest ->
     ph s' = PRun -> r_unavB s' = r_unavB s ∖ {[t]} -> r_unavS s' = r_unavS s -> r_svc s' = r_svc s ->
     termq s' = termq s -> sigq s' = sigq s -> root_step watch s s'
-| RS_okS t act rest :
-    watch = false -> ph s = PRun -> rootq s = OMsg ARoot (MOk KS t act) :: rest -> rootq s' = rest ->
+| RS_okS pre t act rest :
+    watch = false -> ph s = PRun -> rootq s = pre ++ OMsg ARoot (MOk KS t act) :: rest -> rootq s' = pre ++ rest ->
     ph s' = PRun -> r_unavB s' = r_unavB s -> r_unavS s' = r_unavS s ∖ {[t]} ->
     r_svc s' = (if act then r_svc s ∪ {[t]} else r_svc s) ->
     termq s' = termq s -> sigq s' = sigq s -> root_step watch s s'
@@ -201,9 +201,44 @@ Proof.
     + by apply Hk3.
 Qed.
 
+Lemma elem_of_mid {A} (pre : list A) x rest : x ∈ pre ++ x :: rest.
+Proof. apply elem_of_app. right. apply elem_of_list_here. Qed.
+
+Lemma elem_of_mid_inv {A} (pre : list A) x y rest : x ∈ pre ++ y :: rest -> x = y \/ x ∈ pre ++ rest.
+Proof.
+  intros H. apply elem_of_app in H as [H|H]; [right; apply elem_of_app; by left|].
+  apply elem_of_cons in H as [->|H]; [by left|right; apply elem_of_app; by right].
+Qed.
+
+Lemma pick_spec {A} (i : nat) (l : list A) pre x rest : pick i l = Some (pre, x, rest) -> l = pre ++ x :: rest.
+Proof.
+  revert i pre x rest. induction l as [|y l IH]; intros i pre x rest H; [by destruct i|].
+  destruct i as [|i]; cbn in H.
+  - by injection H as <- <- <-.
+  - destruct (pick i l) as [[[pre' x'] rest']|] eqn:Hp; [|done]. injection H as <- <- <-.
+    cbn. f_equal. by apply (IH i).
+Qed.
+
+(* the root loop takes one entry out of its queue *)
+Lemma root_consume_inv fx watch s pre o rest :
+  ph s = PRun -> rootq s = pre ++ o :: rest ->
+  step_inv fx watch s (root_consume watch s o (pre ++ rest)).
+Proof.
+  intros Hrun Hq.
+  assert (Hsub : forall o', o' ∈ pre ++ rest -> o' ∈ rootq s).
+  { intros o' Hin. rewrite Hq. apply elem_of_app in Hin as [?|?]; apply elem_of_app; [by left|right; by apply elem_of_list_further]. }
+  unfold root_consume. destruct watch.
+  - apply SI_root; cbn; try done. eapply (RS_drop _ _ _ pre o rest); cbn; try done; by left.
+  - destruct o as [[|d] [k r|k r|[] t act|k t]|t]; apply SI_root; cbn; try done;
+      first [ by (eapply (RS_drop _ _ _ pre _ rest); cbn; try done; by right)
+            | by (eapply (RS_okB _ _ _ pre t act rest); cbn; done)
+            | by (eapply (RS_okS _ _ _ pre t act rest); cbn; done)
+            | by (eapply (RS_err _ _ _ pre t rest); cbn; done) ].
+Qed.
+
 Lemma exec_inv fx watch s l s' : exec fx watch s l = Some s' -> step_inv fx watch s s'.
 Proof.
-  destruct l as [t ok|t ok|t|t r| | | | |ts|]; cbn [exec]; intros H.
+  destruct l as [t ok|t ok|t|t r| | | | |ts| |t i ok|i]; cbn [exec]; intros H.
   - destruct (actors s !! t) as [a|] eqn:Ha; [|done].
     destruct (inbox s !! t) as [[|m rest]|] eqn:Hib; try done.
     eapply (apply_step_inv fx watch s t a (EMsg m) ok); try done.
@@ -225,17 +260,8 @@ Proof.
     intros [= ->]. exact Hcs.
   - destruct (root_running s && (watch || negb (root_sets_empty s))) eqn:Hc; [|done].
     apply andb_true_iff in Hc as [Hrun Hc]. apply bool_decide_eq_true in Hrun.
-    destruct (rootq s) as [|o rest] eqn:Hq; [done|].
-    assert (Hsub : forall o', o' ∈ rest -> o' ∈ o :: rest) by (intros; by apply elem_of_list_further).
-    destruct watch.
-    + injection H as <-. apply SI_root; cbn; try done; [by rewrite Hq|].
-      eapply (RS_drop _ _ _ o rest); cbn; try done; by left.
-    + destruct o as [[|d] [k r|k r|[] t act|k t]|t]; injection H as <-; apply SI_root; cbn; try done;
-        try (by rewrite Hq);
-        first [ by (eapply (RS_drop _ _ _ _ rest); cbn; try done; by right)
-              | by (eapply (RS_okB _ _ _ t act rest); cbn; done)
-              | by (eapply (RS_okS _ _ _ t act rest); cbn; done)
-              | by (eapply (RS_err _ _ _ t rest); cbn; done) ].
+    destruct (rootq s) as [|o rest] eqn:Hq; [done|]. injection H as <-.
+    by apply (root_consume_inv fx watch s [] o rest).
   - destruct (root_running s && negb watch && root_sets_empty s) eqn:Hc; [|done].
     apply andb_true_iff in Hc as [Hc Hemp]. apply andb_true_iff in Hc as [Hrun Hw].
     apply bool_decide_eq_true in Hrun. apply negb_true_iff in Hw. subst watch.
@@ -254,4 +280,28 @@ Proof.
     apply andb_true_iff in Hw as [-> _]. eapply SI_change; cbn; done.
   - destruct (ph s) eqn:Hph; try done. destruct (all_exited s) eqn:Hall; [|done]. injection H as <-.
     apply SI_root; cbn; try done. by eapply RS_join.
+  - (* LDeliverAt: the i-th message, no earlier one from the same sender *)
+    destruct (actors s !! t) as [a|] eqn:Ha; [|done].
+    destruct (inbox s !! t) as [l|] eqn:Hib; [|done].
+    destruct (pick i l) as [[[pre m] rest]|] eqn:Hp; [|done].
+    destruct (none_from sender (sender m) pre); [|done].
+    apply pick_spec in Hp. subst l.
+    eapply (apply_step_inv fx watch s t a (EMsg m) ok); try done.
+    + intros d l m0 Hl Hm0. destruct (decide (d = t)) as [->|Hne].
+      * rewrite lookup_insert in Hl. injection Hl as <-. exists (pre ++ m :: rest). split; [done|].
+        apply elem_of_app in Hm0 as [?|?]; apply elem_of_app; [by left|right; by apply elem_of_list_further].
+      * rewrite lookup_insert_ne in Hl by done. eauto.
+    + intros d l m0 Hl Hm0. destruct (decide (d = t)) as [->|Hne].
+      * assert (l = pre ++ m :: rest) as -> by congruence. apply elem_of_app in Hm0 as [Hm0|Hm0].
+        -- left. exists (pre ++ rest). rewrite lookup_insert. split; [done|]. apply elem_of_app. by left.
+        -- apply elem_of_cons in Hm0 as [->|Hm0]; [by right|].
+           left. exists (pre ++ rest). rewrite lookup_insert. split; [done|]. apply elem_of_app. by right.
+      * left. exists l. by rewrite lookup_insert_ne.
+    + intros m0 [= <-]. cbn. exists (pre ++ m :: rest). split; [done|]. apply elem_of_app. right. apply elem_of_list_here.
+  - (* LRootAt *)
+    destruct (root_running s && (watch || negb (root_sets_empty s))) eqn:Hc; [|done].
+    apply andb_true_iff in Hc as [Hrun Hc]. apply bool_decide_eq_true in Hrun.
+    destruct (pick i (rootq s)) as [[[pre o] rest]|] eqn:Hp; [|done].
+    destruct (none_from out_sender (out_sender o) pre); [|done]. injection H as <-.
+    apply pick_spec in Hp. by apply (root_consume_inv fx watch s pre o rest).
 Qed.
